@@ -19,7 +19,7 @@ func init() {
 	register(&Check{
 		ID: "C07", Level: "exploration", Configs: []string{"direct", "packetizers", "direct", "direct", "packetizers", "direct", "direct", "long"},
 		Run: runC07, PrePass: prepassC07, NeedsSched: true,
-		QuickRuns:   60_000,
+		QuickRuns:   120_000,
 		ThoroughSec: 600,
 		Rule: "one run = 2-6 simulated threads calling NextSequenceNumber/RollOverCount on one real Sequencer (configs: direct ops; packetizers " +
 			"sharing the sequencer through the rtp.Sequencer interface; long 4-thread runs across several wraps), preemption possible before every " +
@@ -34,7 +34,7 @@ func init() {
 			"the happens-before check tracks plain accesses to fields through the method receiver; anything routed through sync/atomic counts as synchronised",
 			"porcupine v1.3.0 is trusted for histories <= 60 operations; the closed-form oracle covers all histories",
 		},
-		ProbeNames: []string{"preempt-inside-critical-section-blocked", "wrap-inside-run", "rollover-read-concurrent-with-wrap", "porcupine-checked"},
+		ProbeNames: []string{"wrap-inside-run", "rollover-read-concurrent-with-wrap", "porcupine-checked"},
 	})
 }
 
